@@ -716,6 +716,7 @@ type c19RaceBuild struct {
 	out    string
 	cancel context.CancelFunc
 	t0     time.Time
+	cold   bool // quick tier: the -race build cache is cold, no build was started
 }
 
 func c19StartRaceBuild(c *Cfg) *c19RaceBuild {
@@ -730,12 +731,30 @@ func c19StartRaceBuild(c *Cfg) *c19RaceBuild {
 	rb := &c19RaceBuild{bin: filepath.Join(abs, "hrace"), done: make(chan struct{}), t0: time.Now()}
 	ctx, cancel := context.WithCancel(context.Background())
 	rb.cancel = cancel
-	cmd := exec.CommandContext(ctx, "nice", filepath.Join(vd, "harness", "build.sh"), rb.bin, "C19", "-race")
-	cmd.Env = os.Environ()
+	script := filepath.Join(vd, "harness", "build.sh")
+	quick := !c.Thorough() && os.Getenv("VERIF_C19_RACE_COLD") == ""
 	go func() {
+		defer close(rb.done)
+		if quick {
+			// quick tier: NEVER start a cold -race build. `go build -n` consults the build
+			// cache: it lists a compile step for every package that is not cached.
+			pb, _ := exec.CommandContext(ctx, script, rb.bin+".probe", "C19", "-race", "-n").CombinedOutput()
+			n := 0
+			for _, ln := range strings.Split(string(pb), "\n") {
+				if strings.Contains(ln, "/compile ") && !strings.Contains(ln, " -p main ") {
+					n++
+				}
+			}
+			if n > 0 || !strings.Contains(string(pb), "/link ") {
+				rb.cold = true
+				rb.err = fmt.Errorf("%d packages not in the -race build cache", n)
+				return
+			}
+		}
+		cmd := exec.CommandContext(ctx, "nice", script, rb.bin, "C19", "-race")
+		cmd.Env = os.Environ()
 		b, err := cmd.CombinedOutput()
 		rb.err, rb.out = err, string(b)
-		close(rb.done)
 	}()
 	return rb
 }
@@ -750,12 +769,12 @@ var c19FrameRe = regexp.MustCompile(`^  (\S+)\(\)$`)
 //	                             in place (internal/pretty/style.setCommentRelPos,
 //	                             ast.SetRelPos) on comment groups / identifiers that the
 //	                             results of Value.Syntax share with the source AST
-//	race-errors-append-shared-list  cue/errors.appendToList appends in place to an error
-//	                             list reachable from the shared value (adt.Validate →
-//	                             CombineErrors → errors.Append)
-//	race-valueerror-msg          adt.(*ValueError).Msg rewrites its args slice in place
+//	relapse-race-valueerror-msg, relapse-race-errors-append-shared-list
+//	                             the two races repaired in /repo by 13ac4bf (never listed
+//	                             as known: a relapse is a violation)
 //	race-lazy-finalize-<cat>     at least one access happens inside the evaluator
-//	                             (adt.(*Vertex).Finalize / unify) entered from a cue.Value
+//	                             (adt.(*Vertex).Finalize / unify / CompleteArcs, the
+//	                             nodeContext / scheduler methods) entered from a cue.Value
 //	                             method on a vertex reachable from the shared value
 //	                             (cat = evaluated | derived: how the shared value was made)
 //	race:<top1>|<top2>           anything else
@@ -764,6 +783,12 @@ func c19ParseRaces(stderr string, cat string) (classes map[string]string) {
 	blocks := strings.Split(stderr, "==================")
 	for _, blk := range blocks {
 		if !strings.Contains(blk, "WARNING: DATA RACE") {
+			continue
+		}
+		if strings.Contains(blk, "failed to restore the stack") {
+			// the detector lost one of the two stacks (history overflow): the report cannot
+			// be attributed; counted, not classified
+			classes["#unrestored"] += "x"
 			continue
 		}
 		// sections are separated by blank lines; the first two are the two accesses
@@ -807,10 +832,15 @@ func c19ParseRaces(stderr string, cat string) (classes map[string]string) {
 		case anyOf("cuelang.org/go/cue/format.Node()") && anyOf("internal/pretty/style.setCommentRelPos()", "cuelang.org/go/cue/ast.SetRelPos()"):
 			cls = "race-format-shared-ast"
 		case anyOf("cuelang.org/go/cue/errors.appendToList()"):
-			cls = "race-errors-append-shared-list"
-		case len(tops) == 2 && tops[0] == "internal/core/adt.(*ValueError).Msg" && tops[1] == tops[0]:
-			cls = "race-valueerror-msg"
-		case anyOf("internal/core/adt.(*Vertex).Finalize()", "internal/core/adt.(*Vertex).unify()", "internal/core/adt.(*OpContext).unify()"):
+			// repaired in /repo by 13ac4bf: a relapse is a violation (class not listed)
+			cls = "relapse-race-errors-append-shared-list"
+		case anyOf("internal/core/adt.(*ValueError).Msg()"):
+			// repaired in /repo by 13ac4bf: a relapse is a violation (class not listed)
+			cls = "relapse-race-valueerror-msg"
+		case anyOf("internal/core/adt.(*Vertex).Finalize()", "internal/core/adt.(*Vertex).unify()", "internal/core/adt.(*OpContext).unify()",
+			"internal/core/adt.(*Vertex).CompleteArcs()", "internal/core/adt.(*nodeContext).", "internal/core/adt.(*scheduler)."):
+			// at least one of the two accesses happens while the evaluator works on a vertex
+			// (Finalize / unify / the node scheduler) below a cue.Value method
 			cls = "race-lazy-finalize-" + cat
 		}
 		if _, ok := classes[cls]; !ok {
@@ -848,6 +878,11 @@ func c19RaceStage(c *Cfg, rb *c19RaceBuild, r *Rng) {
 		fmt.Fprintf(os.Stderr, "C19: -race binary not ready after %v (+%v): race stage skipped\n", time.Since(rb.t0).Round(time.Second), wait)
 		return
 	}
+	if rb.cold {
+		c.Count("race.cold_cache_skipped")
+		fmt.Fprintf(os.Stderr, "C19: quick tier and %v: race stage skipped (the thorough tier builds it)\n", rb.err)
+		return
+	}
 	if rb.err != nil {
 		c.Count("race.build_failed")
 		fmt.Fprintf(os.Stderr, "C19: -race build failed: %v\n%s\n", rb.err, c19Tail(rb.out, 1500))
@@ -865,7 +900,7 @@ func c19RaceRun(c *Cfg, rb *c19RaceBuild, r *Rng, cat, modes string) {
 	dir := filepath.Join(c.Out, "raceout-"+cat)
 	os.MkdirAll(dir, 0o777)
 	cmd := exec.Command(rb.bin, "C19", "-replay", fmt.Sprintf("race:%d:%s", budget, modes), "-seed", fmt.Sprint(r.U64()%1000000007), "-tier", c.Tier, "-out", dir)
-	cmd.Env = append(os.Environ(), "GORACE=halt_on_error=0 history_size=3")
+	cmd.Env = append(os.Environ(), "GORACE=halt_on_error=0 history_size=7")
 	var eb bytes.Buffer
 	cmd.Stderr = &eb
 	done := make(chan error, 1)
@@ -888,6 +923,12 @@ func c19RaceRun(c *Cfg, rb *c19RaceBuild, r *Rng, cat, modes string) {
 	}
 	sort.Strings(names)
 	for _, k := range names {
+		if k == "#unrestored" {
+			c.mu.Lock()
+			c.counts["race.unrestored_stack"] += len(classes[k])
+			c.mu.Unlock()
+			continue
+		}
 		c.Direct(false, k, "the race detector reported a data race while cue.Value methods ran concurrently on a shared value",
 			map[string]any{"report": classes[k], "value_modes": modes, "replay": "VERIF_SEED / tier as in this run; the -race child generates its cases from the seed"})
 		c.Count("race.reports")
